@@ -457,7 +457,7 @@ def report_bad(ctx, run, timeout):
                 data, r = G.shape(fam, mn), mr
             else:
                 mn = n
-        elif isinstance(data, dict) or e["r"].get("env") or e["r"].get("obstacles"):
+        elif isinstance(data, dict) or e["r"].get("env") or e["r"].get("obstacles") or e["r"].get("valgrind"):
             pass            # several files (INCLUDE chains) / environment-dependent: reported as generated
         elif r["cls"] != "timeout" and 256 <= len(data) < 400000:
             d2, r2 = minimise_lines(run, data, tool, args, tmo, sig=r["sig"])
@@ -468,7 +468,7 @@ def report_bad(ctx, run, timeout):
                 f": {r['cls']} [{r['sig']}] rc={r['rc']}" + (f"; also {', '.join(e['also'][:6])}" if e["also"] else ""))
         if e["r"].get("env"):
             what += " with " + ", ".join(f"{k}=<{len(v)} characters>" for k, v in e["r"]["env"].items())
-        rep = {"tool": tool, "args": list(args), "env": e["r"].get("env"), "obstacles": e["r"].get("obstacles"), "class": r["cls"], "signature": r["sig"], "exit": r["rc"],
+        rep = {"tool": tool, "args": list(args), "env": e["r"].get("env"), "obstacles": e["r"].get("obstacles"), "valgrind": bool(e["r"].get("valgrind")), "class": r["cls"], "signature": r["sig"], "exit": r["rc"],
                "family": fam, "n": mn,
                "input_latin1": None if isinstance(data, dict) else (data.decode("latin-1") if len(data) <= 300000 else None),
                "files_latin1": {k: v.decode("latin-1") for k, v in data.items()} if isinstance(data, dict) else None,
@@ -861,6 +861,8 @@ def run(ctx):
         hit = r["cls"] in R.BAD and any(x in r["sig"] + r["err"][:2500] for x in ("exp_output", "format_for_std_stringout", "finish_string", "exppp"))
         if ("terminated=false" in pred or mclass(pred) == "overflow") != hit:
             disagreements.append(("longexpr", n, "exp2cxx", pred, f"{r['cls']} {r['sig']}"))
+    # selects that reach themselves through named aggregates (legal), renamed selects
+    run_.run([(f"recursive_select:{tg}", d, None, None) for tg, d in G.recursive_selects()], timeout=tmo)
     # exppp options that change where output goes: several schemas to stdout, to one named file
     outs = [(f"stdout:{n}", G.multi_schema(n), None, None) for n in (1, 2, 3)]
     run_.run(outs, tools_of=lambda tag, fam: ["exppp"], timeout=tmo, args=("-o", "--"))
@@ -957,6 +959,29 @@ def run(ctx):
         run_.run([("deepdecl:subtype_chain:150000", G.subtype_chain(150000), None, None)],
                  tools_of=lambda tag, fam: ["check-express"], timeout=300)
 
+    # 4b. thorough: uninitialised reads (valgrind memcheck on the plain build; ASan does not see them, and without ASLR luck
+    #     neither does a plain run): generated valid schemas incl. wide selects, contradictions, one shipped schema, per tool
+    if not quick and shutil.which("valgrind"):
+        t4 = time.time()
+        bp = ctx.build("plain")
+        vin = [(f"valgrind:valid{i}", G.valid_schema(__import__("random").Random(900 + i), i, size=3)) for i in range(3)]
+        vin += [(f"valgrind:{tg}", d) for tg, d in G.wide_selects()[:4]]
+        vin += [(f"valgrind:{k}", f()) for k, f in list(G.CONTRADICTIONS.items())[::9]]
+        vin += [(f"valgrind:{tg}", d) for tg, d in G.recursive_selects()]
+        vin += [("valgrind:ladder_select6", G.shape("ladder_select", 6)), ("valgrind:ladder_plain6", G.shape("ladder_plain", 6)), ("valgrind:unwritable_input", UNWRITABLE_INPUT)]
+        pdm = glob.glob(os.path.join(B.REPO, "data", "pdm*", "*.exp"))
+        if pdm:
+            vin.append(("valgrind:shipped_pdm", open(pdm[0], "rb").read()))
+        from concurrent.futures import ThreadPoolExecutor
+        jobs = [(tg, d, t) for tg, d in vin for t in R.TOOLS]
+        with ThreadPoolExecutor(max_workers=12) as ex:
+            results = list(ex.map(lambda j: (j, R.run_valgrind(bp, j[2], j[1], ctx.work, timeout=600)), jobs))
+        for (tg, d, t), r in results:
+            ctx.count(1, key=(tg, t, "valgrind"))
+            if r["cls"] in ("valgrind", "signal", "timeout"):
+                run_.bad.append((tg, d, None, None, dict(r, cls="sanitizer" if r["cls"] == "valgrind" else r["cls"], valgrind=True)))
+        ctx.cov["correspondence"]["valgrind"] = {"runs": len(jobs), "wall_s": round(time.time() - t4, 1)}
+
     # 5. verdict: the oracle first (every misbehaviour is a failing input), then model/implementation disagreements
     distinct = report_bad(ctx, run_, tmo)
     ctx.cov["correspondence"]["misbehaviours_distinct"] = distinct
@@ -1003,6 +1028,12 @@ def replay(ctx, path):
         data = r["input_latin1"].encode("latin-1")
     else:
         data = G.shape(r["family"], r["n"])
+    if r.get("valgrind"):
+        res = R.run_valgrind(ctx.build("plain"), r["tool"], data, ctx.work, timeout=600, args=tuple(r.get("args", ())))
+        print(f"[C06] replay (valgrind): {r['tool']} -> {res['cls']} {res['sig']}", flush=True)
+        if res["cls"] in ("valgrind", "signal", "timeout"):
+            ctx.violation(res["sig"], f"{r['tool']}: {res['sig']}", r)
+        return
     res = R.run_tool(b, r["tool"], data, ctx.work, timeout=120, args=tuple(r.get("args", ())), env_extra=r.get("env"), no_input=bool(r.get("no_input")),
                      obstacles=tuple(tuple(x) for x in (r.get("obstacles") or ())))
     ctx.count(1, key=("replay", r["tool"]))
